@@ -842,6 +842,11 @@ WITNESS_PAIRS = [
     ("over:%:zero-divisor", "%/[1 0]", "1%0"), ("over:%:zero-divisor", "%/[4 2 0]", "(4%2)%0"), ("over:%:zero-divisor", "%/[1 0 0]", "{x%y}/[1 0 0]"),
     ("scan:%:zero-divisor", "%\\[4 2 0]", "{x%y}\\[4 2 0]"), ("over:%:zero-divisor", "%/[[8 4] [2 0]]", "{x%y}/[[8 4] [2 0]]"),
     ("over:%", "%/[8 2 2]", "(8%2)%2"), ("over:%", "%/[0 2]", "0%2"),
+    # a real neutral element in front of an all-integer scan: slot 0 is the neutral element itself
+    ("scan-neutral:real-neutral", "0.5<\\[1 2 3]", "0.5,(0.5<1),((0.5<1)<2),(((0.5<1)<2)<3)"),
+    ("scan-neutral:real-neutral", "2.5{_x*y}\\[1 2 3]", "2.5,(_2.5*1),(_(_2.5*1)*2),(_(_(_2.5*1)*2)*3)"),
+    ("scan-neutral:real-neutral", "1.5{y}\\[4 5]", "1.5,4,5"), ("scan-neutral:real-neutral", "(-0.5){x>y}\\[1 0 1]", "(-0.5),((-0.5)>1),(((-0.5)>1)>0),((((-0.5)>1)>0)>1)"),
+    ("over-neutral:real-neutral", "2.5{_x*y}/[1 2 3]", "_(_(_2.5*1)*2)*3"), ("scan-neutral:int-neutral", "4+\\[1 2 3]", "4,(4+1),((4+1)+2),(((4+1)+2)+3)"),
 ]
 
 
